@@ -10,6 +10,18 @@ GOENV = dict(GOFLAGS="-mod=mod", GOPROXY="off", GOSUMDB="off", GOTOOLCHAIN="loca
              CGO_ENABLED=os.environ.get("CGO_ENABLED", "1"))
 
 
+class lake_lock:
+    """Serialises `lake build` across concurrently running checks (lake has no lock of its own)."""
+    def __init__(self, root):
+        self.path = os.path.join(root, ".lakelock")
+    def __enter__(self):
+        self.f = open(self.path, "w")
+        fcntl.flock(self.f, fcntl.LOCK_EX)
+    def __exit__(self, *a):
+        fcntl.flock(self.f, fcntl.LOCK_UN)
+        self.f.close()
+
+
 def log(*a):
     print("[check]", *a, file=sys.stderr, flush=True)
 
@@ -31,6 +43,13 @@ class Check:
         self.work = os.path.join(root, ".work", pid)
         shutil.rmtree(self.work, ignore_errors=True)
         os.makedirs(self.work, exist_ok=True)
+        if os.path.realpath(REPO) != "/repo":
+            # VERIF_REPO=<worktree>: build a private copy of the harness against that tree
+            h2 = os.path.join(self.work, "harness")
+            shutil.copytree(self.harness, h2, ignore=shutil.ignore_patterns("bin"))
+            gm = open(os.path.join(h2, "go.mod")).read().replace("=> /repo", "=> " + os.path.realpath(REPO))
+            open(os.path.join(h2, "go.mod"), "w").write(gm)
+            self.harness = h2
         os.makedirs(os.path.join(root, "evidence"), exist_ok=True)
         os.makedirs(os.path.join(root, "replays"), exist_ok=True)
         self.t0 = time.time()
@@ -49,24 +68,22 @@ class Check:
 
     # ---------------------------------------------------------------- build
     def regen(self, cfg):
-        """Regenerate lean/M3d/Gen from /repo (tables by execution, facts by go/ast)."""
+        """Regenerate lean/M3d/Gen/<g>.lean from /repo's working tree: tables by executing the
+        real code under the verif hooks, facts by go/ast — both live in the property's own
+        harness command (`bin/cNN -gen <g> -repo <repo> -out <file>`)."""
         gens = cfg.get("gen", [])
         if not gens:
             return True
-        rc, out = run(["go", "build", "-tags", "verif", "-o", os.path.join(self.harness, "bin", "extract"),
-                       "./cmd/extract"], cwd=self.harness, env=GOENV, timeout=600)
-        if rc != 0:
-            self.notes.append("extract build failed: " + out[-2000:])
-            return False
         gendir = os.path.join(self.lean, "M3d", "Gen")
+        os.makedirs(gendir, exist_ok=True)
         tmp = os.path.join(self.work, "gen")
         os.makedirs(tmp, exist_ok=True)
         ok = True
         for g in gens:
-            rc, out = run([os.path.join(self.harness, "bin", "extract"), "-gen", g, "-repo", REPO,
-                           "-out", os.path.join(tmp, g + ".lean")], cwd=self.harness, env=GOENV, timeout=300)
+            rc, out = run([os.path.join(self.harness, "bin", self.pid.lower()), "-gen", g, "-repo", REPO,
+                           "-out", os.path.join(tmp, g + ".lean")], cwd=self.harness, env=GOENV, timeout=600)
             if rc != 0:
-                self.notes.append(f"extract {g} failed: {out[-2000:]}")
+                self.notes.append(f"regenerating Gen/{g}.lean failed (the translator/extractor could not process the current source): {out[-2000:]}")
                 ok = False
                 continue
             dst = os.path.join(gendir, g + ".lean")
@@ -74,14 +91,15 @@ class Check:
             old = open(dst).read() if os.path.exists(dst) else None
             if new != old:
                 if old is not None:
-                    log(f"Gen/{g}.lean changed — theorems depending on it will be re-checked")
+                    log(f"Gen/{g}.lean changed - theorems depending on it will be re-checked")
                 open(dst, "w").write(new)
         return ok
 
     def lake_build(self, targets):
         cmd = ["lake", "build"] + targets
         self.checker_cmds.append("cd lean && " + " ".join(cmd))
-        rc, out = run(cmd, cwd=self.lean, timeout=3600)
+        with lake_lock(self.root):
+            rc, out = run(cmd, cwd=self.lean, timeout=3600)
         return rc, out
 
     def go_build(self):
@@ -351,7 +369,33 @@ def do_replay(root, pid, path):
     return 0 if impl_now == p.stdout.strip() else 1
 
 
+def setup(root):
+    """MANIFEST.setup_cmd: build every claimed property's harness command, regenerate Gen/, build
+    all theorems and drivers."""
+    sys.path.insert(0, os.path.join(root, "lib"))
+    import props
+    targets = ["M3d"]
+    rc_all = 0
+    for pid, cfg in sorted(props.PROPS.items()):
+        if cfg.get("unclaimed"):
+            continue
+        c = Check(root, pid, "quick", 1)
+        rc, out = c.go_build()
+        if rc != 0:
+            print(out); rc_all = 1
+            continue
+        if not c.regen(cfg):
+            print("\n".join(c.notes)); rc_all = 1
+        targets += [cfg["module"], "drv_" + pid.lower()]
+    with lake_lock(root):
+        rc, out = run(["lake", "build"] + targets, cwd=os.path.join(root, "lean"), timeout=7200)
+    print(out[-3000:])
+    return 1 if (rc != 0 or rc_all) else 0
+
+
 def main(root, argv):
+    if argv and argv[0] == "--setup":
+        return setup(root)
     ap = argparse.ArgumentParser()
     ap.add_argument("pid")
     ap.add_argument("--tier", default=os.environ.get("VERIF_TIER", "quick"))
@@ -366,13 +410,15 @@ def main(root, argv):
     sys.path.insert(0, os.path.join(root, "lib"))
     import props
     cfg = props.PROPS[pid]
-    lockf = open(os.path.join(root, ".lock"), "w")
+    os.makedirs(os.path.join(root, ".work"), exist_ok=True)
+    lockf = open(os.path.join(root, ".work", f".lock-{pid}"), "w")
     fcntl.flock(lockf, fcntl.LOCK_EX)
     if a.replay:
         return do_replay(root, pid, a.replay)
     c = Check(root, pid, tier, seed)
-    log(f"{pid} tier={tier} seed={seed}")
-    ok_gen = c.regen(cfg)
+    log(f"{pid} tier={tier} seed={seed} repo={REPO}")
+    rcg, outg = c.go_build()
+    ok_gen = c.regen(cfg) if rcg == 0 else False
     module = cfg["module"]
     rc, out = c.lake_build([module, "drv_" + pid.lower()])
     proofs_ok = rc == 0 and ok_gen
@@ -385,13 +431,13 @@ def main(root, argv):
     else:
         c.audit(module)
         if tier == "thorough":
-            rc2, out2 = run(["lake", "env", "leanchecker", module], cwd=c.lean, timeout=3600)
+            with lake_lock(root):
+                rc2, out2 = run(["lake", "env", "leanchecker", module], cwd=c.lean, timeout=3600)
             c.checker_cmds.append(f"cd lean && lake env leanchecker {module}")
             c.extra_cov["leanchecker"] = "ok" if rc2 == 0 else ("failed: " + out2[-500:])
             if rc2 != 0:
                 proofs_ok = False
                 c.notes.append("leanchecker failed: " + out2[-500:])
-    rcg, outg = c.go_build()
     if rcg != 0:
         c.violations.append(dict(site=f"corr:{pid}/harness-does-not-build", kind="correspondence-broken", found_input=False,
                                  detail=outg[-1500:], replay=dict(error="go build -tags verif ./cmd/<pid> failed", output=outg[-3000:])))
